@@ -317,6 +317,11 @@ def gen_op(w, rng, conf):
     if not S:
         exits = [n for n in names if not G.graph[n]._jump_targets]
         P = rng.sample(exits, min(len(exits), rng.randint(1, 2))) if exits and rng.chance(0.7) else P[:1]
+    be_blocks = [n for n in names if G.graph[n].backedges and n not in P]
+    if be_blocks and rng.chance(0.3):
+        # a predecessor with a declared back edge, whether or not it has an arc
+        # into S: its back-edge target must survive the edit
+        P.append(rng.choice(be_blocks))
     if not conf["allow_overlap"]:
         P = [p for p in P if p not in S]
     # (almost) never put a back-edge target of p into S: the statement is silent there
@@ -432,8 +437,11 @@ def _do_edit(w, op, G):
         if any(r["targets"] and all(t in r["backedges"] for t in r["targets"]) for r in pre.values()):
             return "skip"
         try:
+            CURRENT["in_library"] = True
             G.join_returns()
+            CURRENT["in_library"] = False
         except Exception as e:
+            CURRENT["in_library"] = False
             w.viol("C14", "edit-raised", "op=join_returns:%s" % _exc_sig(e), "-", str(e))
             w.path_ok = False
             return None
@@ -451,8 +459,11 @@ def _do_edit(w, op, G):
         ev0 = len(ISSUED)
         present, _d = present_map(w.g)
         try:
+            CURRENT["in_library"] = True
             ret = G.join_tails_and_exits(list(tails), list(exits))
+            CURRENT["in_library"] = False
         except Exception as e:
+            CURRENT["in_library"] = False
             w.viol("C14", "edit-raised", shape + ":" + _exc_sig(e), "-", str(e)[:200],
                    {"tags": models.shape_of(G, tails, exits)})
             w.path_ok = False
@@ -506,13 +517,16 @@ def _do_edit(w, op, G):
         preserving = preserving  # self arcs stay path-preserving
     ev0 = len(ISSUED)
     try:
+        CURRENT["in_library"] = True
         if kind == "control":
             G.insert_block_and_control_blocks(new, list(P), list(S))
         else:
             fn = {"exit": G.insert_SyntheticExit, "tail": G.insert_SyntheticTail,
                   "return": G.insert_SyntheticReturn, "fill": G.insert_SyntheticFill}[op["btype"]]
             fn(new, list(P), list(S))
+        CURRENT["in_library"] = False
     except Exception as e:
+        CURRENT["in_library"] = False
         w.viol("C14", "edit-raised", shape + ":" + _exc_sig(e), new, str(e)[:200], {"tags": tags})
         w.path_ok = False
         return None
@@ -667,8 +681,28 @@ def do_restart(w, fmts):
     return ok_all
 
 
+CURRENT = {"op": None, "step": None, "history": None}
+
+
+def timeout_context(case):
+    """Called by the node when the wall-clock guard fired during a run: if the
+    library was inside an edit primitive, that call did not terminate (edits are
+    linear in the size of a <= 40 block graph; the guard is tens of seconds)."""
+    op = CURRENT["op"]
+    if op is None or op.get("op") != "edit" or not CURRENT.get("in_library"):
+        return []
+    hist = list(CURRENT["history"] or [])
+    return [{"property": "C14", "signature": "C14:edit-did-not-terminate:op=%s" % op.get("kind"),
+             "class": "edit-did-not-terminate", "step": CURRENT["step"], "where": "-",
+             "shape": "op=%s" % op.get("kind"),
+             "detail": "the wall-clock guard fired while the library was executing %r" % (op,),
+             "history": hist}]
+
+
 def apply_op(w, op, conf):
     kind = op["op"]
+    CURRENT["op"] = op
+    CURRENT["in_library"] = False
     ev0 = len(ISSUED)
     present_before, _d = present_map(w.g)
     vars_before = frozenset(PRESENT_VARS)
@@ -752,6 +786,8 @@ def run_case(case, keep_log=False):
         i += 1
         w.step = len(history)
         history.append(op)
+        CURRENT["step"] = w.step
+        CURRENT["history"] = history
         log.add("op", op)
         try:
             outcome = apply_op(w, op, conf)
